@@ -151,7 +151,7 @@ func runC04(rc *Recorder, dir string, rng *rand.Rand, idx int) error {
 	if err != nil {
 		return err
 	}
-	defer func() { w.closeReader(); w.app.Close() }()
+	defer func() { w.closeReader(); w.closeWT(false); w.closeWTConn(); w.app.Close() }()
 	ctx, cancel := context.WithTimeout(ctxb, 120*time.Second)
 	defer cancel()
 
